@@ -47,6 +47,28 @@ class World:
             "A": sim.Endpoint("A", "controlling", case["tagA"], case["tsnA"]),
             "B": sim.Endpoint("B", "controlled", case["tagB"], case["tsnB"]),
         }
+        ssn = case.get("ssn")
+        if ssn:
+            # white-box shift of the origin of the 16-bit stream sequence numbers (both directions, every stream, also after
+            # a stream reset): a stream without state starts at `ssn` instead of 0. Outside the automaton (its streams start
+            # at 0): such runs are judged by the oracles only. Per-instance patches; a missing internal = no shift.
+            class _Seq(dict):
+                def get(self, k, default=None):
+                    return dict.get(self, k, ssn if default == 0 else default)
+            for n in "AB":
+                t = self.ep[n].t
+                if isinstance(getattr(t, "_outbound_stream_seq", None), dict) and hasattr(t, "_get_inbound_stream") \
+                        and isinstance(getattr(t, "_inbound_streams", None), dict):
+                    t._outbound_stream_seq = _Seq(t._outbound_stream_seq)
+                    orig = t._get_inbound_stream
+
+                    def get(sid, _orig=orig, _t=t):
+                        new = sid not in _t._inbound_streams
+                        st = _orig(sid)
+                        if new and hasattr(st, "sequence_number"):
+                            st.sequence_number = ssn
+                        return st
+                    t._get_inbound_stream = get
         self.net = {"A": [], "B": []}  # datagrams queued TOWARDS the endpoint
         self.stash = {"A": [], "B": []}  # copies held back by the network for a long time
         self.trace = {"A": [], "B": []}  # per endpoint: (input, outputs)
